@@ -93,7 +93,8 @@ def r141(ctx, fx, cg):
             for what, pred in (("store the client's text (LspParsingSource::insert/remove)", lambda p: lib.pm(p, "LspParsingSource::insert") or lib.pm(p, "LspParsingSource::remove")),
                                ("re-run perform_codegen", lambda p: lib.pm(p, "LspContext::perform_codegen")),
                                ("republish diagnostics", lambda p: lib.pm(p, "documents::publish_diagnostics"))):
-                mc = lib.MustCall(fx, pred)
+                # a document that is not a file cannot be part of a project: the `None` of document_path(uri) carries no obligation
+                mc = lib.MustCall(fx, pred, absent=("mos::lsp::document_path",))
                 k2 = "%s|every-path|%s" % (f.path, what.split(" (")[0].replace(" ", "-"))
                 # the obligation starts where the handler reads a text the client sent (a didChange without content changes carries none); a handler
                 # that receives no text (didClose) is obliged from its entry
@@ -146,6 +147,49 @@ def r146(ctx, fx):
         ctx.fail_closed(rid, "fewer than 12 request handlers found (%d)" % len(handlers))
 
 
+def line_number_guarded(f, sink_block, t):
+    """the line argument of File::source_line/line_span is, on every path to the call, known to be < File::num_lines(): the call is dominated by the
+    in-range successor of a switch on `line >= n` / `line < n` where n is the result of File::num_lines and `line` the same value as the argument"""
+    if len(t["args"]) < 2:
+        return False
+    du = lib.DefUse(f)
+
+    def root(op):
+        l = lib.op_local(op)
+        seen = set()
+        while l is not None and l not in seen:
+            seen.add(l)
+            d = du.single_def(l)
+            if d is None or d[2] != "assign" or d[3]["rv"]["k"] != "use" or lib.op_local(d[3]["rv"]["op"]) is None:
+                return l
+            l = lib.op_local(d[3]["rv"]["op"])
+        return l
+    arg = root(t["args"][1])
+    nlines = {tt["dst"]["l"] for _, tt in lib.calls(f) if lib.pm(lib.callee(tt)[0], "File::num_lines")}
+    if arg is None or not nlines:
+        return False
+    for bi, si, st in lib.stmts(f):
+        if st["k"] != "assign" or st["rv"].get("k") != "binop" or st["rv"]["op"] not in ("Ge", "Lt", "Gt", "Le"):
+            continue
+        a, b = root(st["rv"]["l"]), root(st["rv"]["r"])
+        op = st["rv"]["op"]
+        if a in nlines and b == arg:          # n <op> line  →  line <flipped op> n
+            a, b = b, a
+            op = {"Ge": "Le", "Le": "Ge", "Gt": "Lt", "Lt": "Gt"}[op]
+        if not (a == arg and b in nlines) or op not in ("Ge", "Lt"):
+            continue
+        term = f.blocks[bi]["term"]
+        if term["k"] != "switch" or lib.op_local(term["discr"]) != st["dst"]["l"]:
+            continue
+        vals = dict((v, tb) for v, tb in term.get("targets", []))
+        false_succ = vals.get(0)
+        true_succ = term.get("otherwise") if 0 in vals else vals.get(1)
+        in_range = false_succ if op == "Ge" else true_succ
+        if in_range is not None and (in_range == sink_block or lib.dominates(f, in_range, sink_block)):
+            return True
+    return False
+
+
 def r142(ctx, fx):
     rid = ctx.rule("R14.2", "label CLIENTPOS (reads of lsp_types::Position.line/.character) must not reach str slicing (split_at, str range index), "
                    "File::source_line / line_span (assert on the line number) or a slice index; a comparison with len() does not discharge a str sink "
@@ -174,6 +218,10 @@ def r142(ctx, fx):
             if kind is None:
                 continue
             n_sinks += 1
+            if kind in ("File::source_line", "File::line_span") and line_number_guarded(f, bi, t):
+                # `if line >= file.num_lines() { return … }` in front of the call: the assertion inside cannot fail
+                ctx.inst(rid, "%s|%s|guarded" % (f.path, kind), sample={"fn": f.path, "sink": kind, "guard": "compared with File::num_lines()"})
+                continue
             if not any(T.op_tainted(f.id, a) for a in t["args"][1:]):
                 ctx.inst(rid, "%s|%s@%s" % (f.path, kind, t.get("line")), nontrivial=False)
                 continue
@@ -212,10 +260,10 @@ def r143(ctx, fx):
                     ctx.inst(rid, key, sample={"fn": f.path, "line": x.get("ln")})
                     ctx.finding(rid, key, "%s unwraps Url::to_file_path of a client-supplied URI" % f.path, "%s:%s" % (f.file, x.get("ln")))
     # anchor: the conversion itself must exist
-    conv = sum(1 for f in fx.all_fns("mos") for _, t in lib.calls(f) if lib.pm(lib.callee(t)[0], "Url::to_file_path"))
-    ctx.inst(rid, "anchor|to_file_path-calls", sample={"calls": conv})
-    if conv < 5:
-        ctx.fail_closed(rid, "fewer than 5 calls of Url::to_file_path found (%d)" % conv)
+    conv = sum(1 for f in fx.all_fns("mos") if "::tests::" not in f.path for _, t in lib.calls(f) if lib.pm(lib.callee(t)[0], "Url::to_file_path"))
+    ctx.inst(rid, "anchor|to_file_path-calls", sample={"calls": conv, "force_unwrapped": total}, nontrivial=total > 0)
+    if conv < 1:
+        ctx.fail_closed(rid, "no call of Url::to_file_path found in the language server")
 
 
 def r144(ctx, fx):
